@@ -202,6 +202,10 @@ def update_state(elasticTrialStrain, stateOld, dt, props, hardening_model):
     lb = eqpsOld
     trialMises = 2 * props[PROPS_MU] * np.tensordot(TensorMath.dev(elasticTrialStrain), N)
     ub = eqpsOld + (trialMises - hardening_model.compute_flow_stress(eqpsOld, eqpsOld, dt))/(3.0*props[PROPS_MU])
+    # Without hardening (perfect plasticity, saturated Voce law) the root sits exactly on this bound and
+    # the sign of the residual there is decided by rounding, which makes the root finder reject the
+    # bracket. Move the bound out by the residual tolerance, so the residual at ub is positive.
+    ub = ub + settings.r_tol/(3.0*props[PROPS_MU])
     # Avoid the initial guess eqpsGuess = eqpsOld, because the power law rate sensitivity has an infinte slope
     # in this case.
     eqpsGuess = 0.5*(lb + ub)
